@@ -95,6 +95,11 @@ type Binding struct {
 	ConstAssign []*Name
 	// FieldNames: Names that are fields / methods / labels / table keys (not variables)
 	FieldNames map[*Name]bool
+	// GFields: the field names of `_G.name` accesses where `_G` is not a local: each designates the
+	// global variable `name` (whatever locals of that name are in scope)
+	GFields []*Name
+	// GFieldWrites: name -> number of `_G.name = v` targets and `function _G.name` definitions
+	GFieldWrites map[string]int
 }
 
 type scope struct {
@@ -119,7 +124,7 @@ type binder struct {
 
 // Bind computes the binding of a parsed chunk (res.Chunk must be non-nil).
 func Bind(res *Result) *Binding {
-	b := &Binding{Res: res, ByName: map[*Name]*Occ{}, GlobalDefs: map[string][]*GlobalDef{}, GlobalReads: map[string][]*Occ{}, FieldNames: map[*Name]bool{}}
+	b := &Binding{Res: res, ByName: map[*Name]*Occ{}, GlobalDefs: map[string][]*GlobalDef{}, GlobalReads: map[string][]*Occ{}, FieldNames: map[*Name]bool{}, GFieldWrites: map[string]int{}}
 	bd := &binder{b}
 	top := &scope{vars: map[string]*Decl{}}
 	bd.blockIn(res.Chunk, top, len(res.Src))
@@ -208,6 +213,12 @@ func (bd *binder) stat(st Stat, s *scope, blockEnd int) {
 		for _, f := range t.Fields {
 			bd.b.FieldNames[f] = true
 		}
+		if t.Base.Text == "_G" && o.Decl == nil && len(t.Fields) > 0 {
+			bd.b.GFields = append(bd.b.GFields, t.Fields[0])
+			if len(t.Fields) == 1 && t.Method == nil {
+				bd.b.GFieldWrites[t.Fields[0].Text]++
+			}
+		}
 		if t.Method != nil {
 			bd.b.FieldNames[t.Method] = true
 		}
@@ -234,6 +245,13 @@ func (bd *binder) stat(st Stat, s *scope, blockEnd int) {
 				}
 			default:
 				bd.exp(tg, s)
+				if ix, ok := tg.(*IndexExp); ok && ix.KeyName != nil {
+					if ne, ok := ix.Obj.(*NameExp); ok && ne.Name.Text == "_G" {
+						if bo := bd.b.ByName[ne.Name]; bo != nil && bo.Decl == nil {
+							bd.b.GFieldWrites[ix.KeyName.Text]++
+						}
+					}
+				}
 			}
 		}
 	case *CallStat:
@@ -327,6 +345,11 @@ func (bd *binder) exp(e Exp, s *scope) {
 		bd.baseExp(t.Obj, s)
 		if t.KeyName != nil {
 			bd.b.FieldNames[t.KeyName] = true
+			if ne, ok := t.Obj.(*NameExp); ok && ne.Name.Text == "_G" {
+				if o := bd.b.ByName[ne.Name]; o != nil && o.Decl == nil {
+					bd.b.GFields = append(bd.b.GFields, t.KeyName)
+				}
+			}
 		} else {
 			bd.exp(t.Key, s)
 		}
